@@ -31,6 +31,8 @@ RULES = {
              'version lets a write through whose stored version cannot grow (saturated), so two writers with the same base both succeed',
     'C02.d': 'a success reply of the store / the increment is built only on paths that passed an insert into Database.map '
              '(an acknowledged write is a committed write with a new version)',
+    'C02.i': 'a refused versioned write stays refused on its way back to the client: the replication table hands an Error / VersionError '
+             'answer back before it is consulted (C04.k, repeated here: otherwise the loser of two same-base writers is answered Ok)',
 }
 
 
@@ -188,6 +190,8 @@ def run(ck, m):
     ck.floor('C02.b', nb, 2, 'inserts into the shared Database.map')
     success_implies_write(ck, m)
     marker_unforgeable(ck, m)
+    from props import C04 as _C04
+    _C04.refusal_not_replicated(ck, m, rule='C02.i')
     # ---- C02.c -------------------------------------------------------------------------
     rb = resolver_fn(m)
     sw = strategy_switch(m, rb)
